@@ -23,8 +23,8 @@ var srcC01i = []*g2lTarget{
 		optVars:   []string{"err", "envContent", "sigEnv"},
 		zeroFill:  true,
 		callSubst: map[string]string{
-			"signature.ParseEnvelope":                        "env.ParseEnvelope",
-			"envelope.ValidatePayloadContentType":            "envelope.ValidatePayloadContentType",
+			"signature.ParseEnvelope":                          "env.ParseEnvelope",
+			"envelope.ValidatePayloadContentType":              "envelope.ValidatePayloadContentType",
 			"typeIs:*signature.SignatureEnvelopeNotFoundError": "c01i.isEnvelopeNotFound",
 			"typeIs:*signature.InvalidSignatureError":          "c01i.isInvalidSignature",
 			"typeIs:*signature.SignatureIntegrityError":        "c01i.isIntegrityError",
